@@ -408,6 +408,24 @@ def part_decorate(ctx, shard):
             usages.append(("returns-multiple", lambda f=f: f(), log, ret, 1))
             f, log = mk_nested()
             usages.append(("nested", lambda f=f: f(val), log, val, 0))
+            # every usage is also exercised as the SECOND and THIRD call of the same decorated function (after calls with a
+            # matching argument): a decorator that keeps per-function state must not wear out
+            good_val = spellings[0][1]
+            warm_usages = []
+            f, log = mk_accepts()
+            warm_usages.append(("accepts-positional-after-earlier-calls", f, lambda f=f: f(val), log, sentinel, 0))
+            f, log = mk_accepts()
+            warm_usages.append(("accepts-keyword-after-earlier-calls", f, lambda f=f: f(a=val), log, sentinel, 0))
+            f, log = mk_nested()
+            warm_usages.append(("nested-after-earlier-calls", f, lambda f=f: f(val), log, val, 0))
+            for uname, f, call, log, expect_obj, calls_on_fail in warm_usages:
+                try:
+                    f(good_val)
+                    f(a=good_val)
+                except Exception:  # noqa: BLE001
+                    pass
+                del log[:]
+                usages.append((uname, call, log, expect_obj, calls_on_fail))
             for uname, call, log, expect_obj, calls_on_fail in usages:
                 ctx.count("evaluations")
                 try:
